@@ -262,7 +262,7 @@ def gen_scalar_termination(rng, N):
     cases = []
     x = F.V(0)
     for t in range(N):
-        fam = ["x2+c", "flat-start", "rational-noroot", "cplx-real-trap", "x2-at-0"][t % 5]
+        fam = ["x2+c", "flat-start", "rational-noroot", "cplx-real-trap", "x2-at-0", "nan-step", "leaves-domain"][t % 7]
         tol, delta = pick_tol(rng), pick_delta(rng)
         iters = [0, 1, 2, 3, 5, 8, 12, 20, None, 50][rng.below(10) if t % 7 else 9]
         if fam == "x2+c":
@@ -273,8 +273,13 @@ def gen_scalar_termination(rng, N):
             fn = F.add(F.div(F.lit('f64', 1.0), F.add(F.mul(x, x), F.lit('f64', 1.0))), F.lit('f64', 0.5)); elt = 'f64'; guess = 6 * rng.unit() - 3
         elif fam == "cplx-real-trap":   # z^2 + 1 from a real guess never leaves the real axis
             fn = F.add(F.mul(x, x), F.lit('cplx', 1.0)); elt = 'cplx'; guess = complex(4 * rng.unit() - 2, 0.0)
+        elif fam == "nan-step":        # 0/0 inside the function: every value is NaN, so is every step
+            fn = F.add(F.div(F.sub(x, x), F.sub(x, x)), F.lit('f64', 1.0)); elt = 'f64'; guess = 4 * rng.unit() - 2
+        elif fam == "leaves-domain":   # finite near the guess, NaN (inf - inf) once an iterate overflows: 1/(x*x) style poles
+            c = 0.5 + rng.unit()
+            fn = F.add(F.div(F.lit('f64', 1.0), F.mul(x, x)), F.lit('f64', c)); elt = 'f64'; guess = (1e-3 + rng.unit()) * (1 if t % 2 else -1)
         else:                          # double root: linear convergence, derivative -> 0
-            fn = F.mul(x, x); elt = 'f64'; guess = rng.unit() * (1 if t % 2 else 0)
+            fn = F.mul(x, x); elt = 'f64'; guess = rng.unit() * (1 if t % 4 else 0)
         cases.append(mk_scalar(elt, tol, delta, iters, guess, fn, {"roots": None, "expect_ok": False}, "scalar-termination-" + fam))
     return cases
 
@@ -352,7 +357,7 @@ def gen_sys_termination(rng, N):
     cases = []
     L = lambda z: F.lit('f64', z)
     for t in range(N):
-        fam = ["noroot", "nonsquare", "singular", "empty", "wrongjac"][t % 5]
+        fam = ["noroot", "nonsquare", "singular", "empty", "wrongjac", "nan-first"][t % 6]
         tol, delta = pick_tol(rng), pick_delta(rng)
         iters = [0, 1, 2, 3, 5, None][rng.below(6)]
         jac = None
@@ -368,6 +373,10 @@ def gen_sys_termination(rng, N):
             n = 2
             fns = [F.add(F.V(0), F.V(1)), F.sub(F.add(F.V(0), F.V(1)), L(1.0))]
             guess = [rng.unit(), rng.unit()]
+        elif fam == "nan-first":       # the first residual component is NaN everywhere: the test can never hold
+            n = 2
+            fns = [F.div(F.sub(F.V(0), F.V(0)), F.sub(F.V(1), F.V(1))), F.sub(F.V(1), L(1.0))]
+            guess = [rng.unit(), 1.0 if rng.chance(1, 2) else rng.unit()]
         elif fam == "empty":           # no unknowns
             n = 0; fns = [] if rng.chance(1, 2) else [L(1.0)]; guess = []
         else:                          # supplied Jacobian of the wrong shape / a wrong (but regular) Jacobian
@@ -398,9 +407,9 @@ def generate(rng, tier):
     cases = []
     cases += gen_scalar_f64(rng.fork("sf"), 210 if q else 2100)
     cases += gen_scalar_cplx(rng.fork("sc"), 100 if q else 1000)
-    cases += gen_scalar_termination(rng.fork("st"), 60 if q else 400)
+    cases += gen_scalar_termination(rng.fork("st"), 84 if q else 560)
     cases += gen_systems(rng.fork("sys"), 120 if q else 1000)
-    cases += gen_sys_termination(rng.fork("syst"), 40 if q else 200)
+    cases += gen_sys_termination(rng.fork("syst"), 48 if q else 240)
     cases += gen_scalar_builtin(rng.fork("sb"), 220 if q else 2200)
     cases += gen_sys_builtin(rng.fork("sysb"), 80 if q else 800)
     # spread heavy and light cases over the model shards
@@ -523,7 +532,9 @@ def oracle(case, items):
     for k in range(K):
         ch = pts[k * per:(k + 1) * per]
         if kind == "scalar":
-            if not all(finite(v) for v in ch): cs.append(None); continue
+            if not all(finite(v) for v in ch):
+                # inf / NaN iterate: current, current + delta and current - delta coincide
+                cs.append(ch[0] if (beq(ch[0], ch[1]) and beq(ch[1], ch[2])) else None); continue
             cs.append(centre3(ch))
         elif kind == "sysjac":
             tags = sorted(t for t, _ in ch)
@@ -558,8 +569,12 @@ def oracle(case, items):
             return abs(c - nxt)
     else:
         fv = builtinv(meta["builtin"]) if meta.get("builtin") else (lambda t: F.evv(meta["fns"], t))
-        def stop_value(c, nxt):     # ||f(c)||_inf
-            return nrm(fv(c))
+        def stop_value(c, nxt):     # ||f(c)||_inf as Vector::norm_inf computes it (first |.|, then strict < updates)
+            v = fv(c)
+            r = abs(v[0])
+            for t in v[1:]:
+                if r < abs(t): r = abs(t)
+            return r
         def newton_step(c):
             import numpy as np
             dt = complex if elt == 'cplx' else float
@@ -583,14 +598,23 @@ def oracle(case, items):
     seq = cs + [x1]
     for k in range(K):
         c, nxt = seq[k], seq[k + 1]
-        if c is None or nxt is None or not allfinite(c) or not allfinite(nxt): continue
+        last = (k == K - 1)
+        if c is None or nxt is None: continue
         try:
             sv = stop_value(c, nxt)
         except Exception:
             continue
-        if sv != sv: continue
+        if sv != sv:
+            # a NaN test value never satisfies `<= tol`: success cannot be reported at this pass
+            if ok1 and last:
+                return ("Ok(%r) at pass %d although the stopping test value there is NaN (iterate %r): a NaN step is not convergence"
+                        % (x1, K, c))
+            continue
+        if not allfinite(c) or not allfinite(nxt):
+            if ok1 and last and kind == "scalar":
+                return "Ok(%r) at pass %d although the step from %r is not finite" % (x1, K, c)
+            continue
         slack = 4 * (ulp(nrm(c)) + ulp(nrm(nxt))) if kind == "scalar" else 1e-12 * sv
-        last = (k == K - 1)
         if not ok1 or not last:
             # the test must have failed here (otherwise the loop would have returned Ok at this pass)
             if sv + slack < tol * (1 - 1e-9):
